@@ -61,10 +61,10 @@ class C16(Harness):
             lens = [Ln] * ni
         x = [[fresh_reals(ctx, "x%d_%d_" % (i, j), lens[i]) for j in range(nc)] for i in range(ni)]
         perm = choice("perm", 0, len(list(itertools.permutations(range(ni)))) - 1)
-        m = choice("m", 1, 3 if k == "paa" else 2)
+        m = choice("m", 1, 3 if k == "paa" else (1 if k == "column-ensemble" else 2))
         if k == "paa" and m > min(lens):
             ctx.assume(False)  # more frames than time points is (rightly) rejected
-        return {"x": x, "perm": list(list(itertools.permutations(range(ni)))[perm]), "single": choice("single", 0, ni - 1), "m": m, "w": choice("w", 1, 3)}
+        return {"x": x, "perm": list(list(itertools.permutations(range(ni)))[perm]), "single": choice("single", 0, ni - 1), "m": m, "w": choice("w", 1, 1 if k == "column-ensemble" else 3)}
 
     def _build(self, W, k, inp, sym):
         import numpy as np
@@ -172,6 +172,24 @@ class C16(Harness):
                 for c in X1.columns:
                     X1[c] = [pd.Series(list(cell_), index=range(1, len(cell_) + 1), dtype=object if sym else float) for cell_ in X1[c]]
                 out["one_based_cells"] = rows_of(apply(X1))
+            if k == "column-ensemble":
+                # the predicted labels (ties between the averaged class probabilities included)
+                lab = lambda XX: [[S(v)] for v in list(t.predict(XX))]  # noqa: E731
+                out["labels"] = {"full": lab(X), "perm": lab(Xp), "single": lab(Xs)}
+            else:
+                # a panel that mixes integer-typed cells (counts: the first instance) with real-valued ones: the row of
+                # an instance does not depend on the dtype its companions force on the batch
+                import pandas as pd
+
+                Xm = X.copy()
+                for c in Xm.columns:
+                    col = list(Xm[c])
+                    col[0] = pd.Series(np.array([1, 2, 4, 8, 16][: len(col[0])], dtype="int64"))
+                    Xm[c] = col
+                try:
+                    out["mixed"] = {"full": rows_of(apply(Xm)), "single": rows_of(apply(Xm.iloc[[0]].reset_index(drop=True)))}
+                except ValueError as e:
+                    out["mixed"] = {"raised": str(e)[:80]}
             # the same selections with their original instance labels kept (what X.iloc[...] hands over)
             out["perm_keep"] = rows_of(apply(X.iloc[inp["perm"]]))
             out["single_keep"] = rows_of(apply(X.iloc[[inp["single"]]]))
@@ -218,6 +236,21 @@ class C16(Harness):
             self._same(P, "single-instance-equals-batch-row", out["single_keep"][0], full[inp["single"]], dk)
         P.check("row-count-and-order", len(out["batch_after_single"]) == ni, dict(d, what="batch after a single-instance call"))
         self._same(P, "single-instance-equals-batch-row", out["batch_after_single"], full, dict(d, what="the whole batch transformed after a single-instance call on the same object"))
+        if "labels" in out:
+            lb = out["labels"]
+            P.check("row-count-and-order", len(lb["full"]) == ni and len(lb["perm"]) == ni and len(lb["single"]) == 1, dict(d, what="predict"))
+            if len(lb["full"]) == ni and len(lb["perm"]) == ni and len(lb["single"]) == 1:
+                for r, src in enumerate(inp["perm"]):
+                    self._same(P, "permutation-equivariant", lb["perm"][r], lb["full"][src], dict(d, what="predict"))
+                self._same(P, "single-instance-equals-batch-row", lb["single"][0], lb["full"][inp["single"]], dict(d, what="predict"))
+        if "mixed" in out:
+            mx = out["mixed"]
+            dm = dict(d, what="panel mixing integer-typed and real-valued cells")
+            P.check("single-instance-equals-batch-row", "raised" not in mx, dict(dm, raised=mx.get("raised")))
+            if "raised" not in mx:
+                P.check("row-count-and-order", len(mx["full"]) == ni and len(mx["single"]) == 1, dm)
+                if len(mx["full"]) == ni and len(mx["single"]) == 1:
+                    self._same(P, "single-instance-equals-batch-row", mx["single"][0], mx["full"][0], dm)
         if "one_based_cells" in out:
             self._same(P, "container-independent", out["one_based_cells"], full, dict(d, what="cells with 1-based time labels"))
         if "array" in out:
